@@ -55,7 +55,11 @@ theorem leaf_scalar {x : Obj} (h : x.isLeafB = true) : (isScalar x) = true := by
 theorem unAny_scalar (c1 c2 : Cfg) {x : Obj} (h : (isScalar x) = true) : unAny w c1 x = unAny w c2 x := by
   cases x <;> simp_all [isScalar, unAny]
 
-theorem un_lit (c : Cfg) (vs : List Obj) (x : Obj) : un w c (.lit vs) x = x := by cases x <;> simp [un]
+theorem litVal_scalar {vs : List Obj} {x : Obj} (hvs : vs.all Obj.isLitVal = true) (h : Obj.memPy x vs = true) :
+    (isScalar x) = true := by
+  rcases memPy_litVal hvs h with hl | ⟨e, m, rfl, _⟩
+  · exact leaf_scalar hl
+  · rfl
 
 theorem wellTyped_opt_ne {t : Ty} {x : Obj} (hx : x ≠ .none) : wellTyped w (.opt t) x = wellTyped w t x := by
   cases x <;> simp_all [wellTyped]
@@ -77,9 +81,10 @@ theorem un_scalar (cG cB : Cfg) (hG : cG.gen = true) :
     | bool => cases x <;> simp_all [wellTyped, un, unAny]
     | enum e => cases x <;> simp_all [wellTyped, un, unAny]
     | lit vs =>
-      rw [un_lit]
-      have hl : x.isLeafB = true := memPy_leaf (by simpa [Ty.supU] using hs) (by simpa [wellTyped] using hwt)
-      rw [unAny_leaf w cB hl]
+      rw [wellTyped] at hwt
+      simp only [Bool.and_eq_true] at hwt
+      rw [un_lit_unAny w cG (by simpa [Ty.supU] using hs) hwt.1]
+      exact unAny_scalar w cG cB hx
     | coll k t' => cases x <;> simp_all [wellTyped, isScalar]
     | tupleHet ts => cases x <;> simp_all [wellTyped, isScalar]
     | map k kt vt => cases x <;> simp_all [wellTyped, isScalar]
